@@ -6,6 +6,9 @@ import (
 	"fmt"
 	"io"
 	"math/rand"
+	"os"
+	"os/exec"
+	"strings"
 	"sync"
 	"sync/atomic"
 	"time"
@@ -126,6 +129,7 @@ func C11(c *hx.Ctx) {
 	c.Level = "exploration"
 	c.Rule = "inputs = (every XzDamage field edit on every block of every base stream) + (extreme numeric values in every length/count/offset field) + (all control-byte sequences of length <= 3 plus hostile operations: distances beyond the window/dictionary, lengths past the declared chunk size, rep before any match, end marker inside LZMA2, wrong chunk sizes) + (every cut of every base stream) + seeded random byte strings and random mutations (bit flips, byte stores, splices, duplications, 0xFF runs) of valid seeds of the three formats; each read with buffer sizes 1/7/4096 under recover, a 5 s per-call limit and n <= len(p); declared dictionaries above 64 MiB are clamped as the property states; non-trivial = input that passes the reader's opening checks or is a structured edit; plus every boundary of the .lzma dictionary-size field, stall detection (abandoned call), three reads after an error"
 	c.Assumptions = []string{"the specification supplies structure (which fields, which sequences), not exhaustiveness over byte strings; coverage-guided fuzzing is not part of this family", "per-call limit measured in wall time with a generous bound"}
+	runProbes(c)
 	var inputs []hostile
 	add := func(format string, data []byte, origin string) {
 		inputs = append(inputs, hostile{format, data, origin})
@@ -392,4 +396,94 @@ func C11(c *hx.Ctx) {
 			c.Sample(map[string]any{"format": h.format, "origin": h.origin, "hex": hexHead(h.data, 64)})
 		}
 	})
+}
+
+// Probe runs one input whose failure mode would take the whole process down (stack
+// exhaustion, out of memory) in this process; C11 starts it as a child and judges how the
+// child ended. Probes print "PROBE ok ..." on success.
+func Probe(name string, arg int) {
+	switch name {
+	case "xz-stream-padding":
+		// two valid streams with arg MiB of stream padding (zero bytes) between them
+		a := libXZ(XZCfg{LC: 3, PB: 2, DictCap: 4096, BufSize: 4096, Check: 4}, []byte("hello, "))
+		b := libXZ(XZCfg{LC: 3, PB: 2, DictCap: 4096, BufSize: 4096, Check: 1}, []byte("world\n"))
+		file := append(append(append([]byte{}, a...), make([]byte, arg<<20)...), b...)
+		r, err := xz.NewReader(bytes.NewReader(file))
+		if err != nil {
+			fmt.Println("PROBE ok open error:", err)
+			return
+		}
+		out, err := io.ReadAll(r)
+		fmt.Printf("PROBE ok read %d bytes err=%v\n", len(out), err)
+		if err == nil && string(out) != "hello, world\n" {
+			fmt.Println("PROBE wrong content")
+			os.Exit(3)
+		}
+	case "xz-many-streams":
+		// arg thousand empty streams in a row
+		e := libXZ(XZCfg{LC: 3, PB: 2, DictCap: 4096, BufSize: 4096, Check: 4}, nil)
+		file := bytes.Repeat(e, arg*1000)
+		r, err := xz.NewReader(bytes.NewReader(file))
+		if err != nil {
+			fmt.Println("PROBE ok open error:", err)
+			return
+		}
+		out, err := io.ReadAll(r)
+		fmt.Printf("PROBE ok read %d bytes err=%v\n", len(out), err)
+	default:
+		fmt.Println("unknown probe")
+		os.Exit(2)
+	}
+}
+
+// runProbes starts every probe as a child process: a child that dies (fatal error, signal,
+// timeout) has found an input on which reading takes the caller down.
+func runProbes(c *hx.Ctx) {
+	self, err := os.Executable()
+	if err != nil {
+		c.Inconclusive("cannot find the driver binary: %v", err)
+		return
+	}
+	type pr struct {
+		name string
+		arg  int
+	}
+	probes := []pr{{"xz-stream-padding", 1}, {"xz-stream-padding", 96}, {"xz-many-streams", 50}}
+	if c.Thorough() {
+		probes = append(probes, pr{"xz-stream-padding", 300}, pr{"xz-many-streams", 1000})
+	}
+	for _, p := range probes {
+		cmd := exec.Command(self, "probe", p.name, fmt.Sprint(p.arg))
+		var out bytes.Buffer
+		cmd.Stdout, cmd.Stderr = &out, &out
+		done := make(chan error, 1)
+		if err := cmd.Start(); err != nil {
+			c.Inconclusive("cannot start probe: %v", err)
+			return
+		}
+		go func() { done <- cmd.Wait() }()
+		var werr error
+		timedOut := false
+		select {
+		case werr = <-done:
+		case <-time.After(5 * time.Minute):
+			cmd.Process.Kill()
+			werr = <-done
+			timedOut = true
+		}
+		c.Count(1, 1)
+		s := out.String()
+		if len(s) > 600 {
+			s = s[:600]
+		}
+		sig := map[string]string{"kind": "probe-died", "format": "xz", "origin": p.name}
+		replay := map[string]any{"probe": p.name, "arg": p.arg, "output": s}
+		switch {
+		case timedOut:
+			sig["kind"] = "stall"
+			c.Violation(sig, fmt.Sprintf("probe %s(%d): reading did not finish within 5 minutes", p.name, p.arg), replay)
+		case werr != nil || !strings.Contains(out.String(), "PROBE ok"):
+			c.Violation(sig, fmt.Sprintf("probe %s(%d): the reading process died: %v; output: %.300s", p.name, p.arg, werr, s), replay)
+		}
+	}
 }
